@@ -525,7 +525,7 @@ func (g *G) exprMin1(ty ts.Type, depth int, minLen int) ts.Expr {
 	case ts.TInt:
 		wLen, wElem, wCopy := 0, 0, 0
 		seqs := g.lenTargets()
-		if len(seqs) > 0 {
+		if len(seqs) > 0 || g.cfg.StrOps || g.cfg.Slices {
 			wLen = 8
 		}
 		elems := g.indexables(ts.TInt)
@@ -553,8 +553,16 @@ func (g *G) exprMin1(ty ts.Type, depth int, minLen int) ts.Expr {
 			g.tag("group")
 			return ts.Group{E: g.expr(ty, depth-1)}
 		case 7:
-			v := seqs[g.intn("lenof", 0, len(seqs)-1)]
 			g.tag("len")
+			if len(seqs) == 0 || g.chance("len-of-expression", 30) {
+				// len of a value that is no variable: literal, concatenation, call result
+				g.tag("len-of-expression")
+				if g.cfg.StrOps && (!g.cfg.Slices || g.chance("len-of-string", 60)) {
+					return ts.Len{X: g.expr(ts.TString, depth-1)}
+				}
+				return ts.Len{X: g.expr([]ts.Type{ts.TIntS, ts.TBoolS, ts.TStringS}[g.intn("len-elem", 0, 2)], depth-1)}
+			}
+			v := seqs[g.intn("lenof", 0, len(seqs)-1)]
 			return ts.Len{X: ts.VarRef{Name: v.Name, Ty: v.Ty}}
 		case 8:
 			return g.elemRead(elems, depth)
@@ -1320,17 +1328,30 @@ func (g *G) loopStmt(depth int) []ts.Stmt {
 			}
 		} else {
 			sl := ts.SliceLit{Elem: seqTy.Elem()}
+			g.pure++ // no calls: the literal may itself become the range operand
 			for i := 0; i < bound; i++ {
 				sl.Elems = append(sl.Elems, g.expr(seqTy.Elem(), 1))
 			}
+			g.pure--
 			init = sl
 		}
-		out = append(out, ts.VarDecl{Names: []string{name}, Ty: seqTy, Tys: []ts.Type{seqTy}, Vals: []ts.Expr{init}, Form: ts.DeclShort})
-		g.addCounter(name, seqTy, minLenOf(init, g))
+		var operand ts.Expr = ts.VarRef{Name: name, Ty: seqTy}
+		if g.chance("range-over-expression", 30) {
+			// the operand is a value that is no variable (the number of its evaluations is unspecified: it is pure)
+			g.tag("range-over-expression")
+			operand = init
+			if sl, ok := init.(ts.StrLit); ok && len(sl.V) >= 2 && g.chance("range-over-concat", 50) {
+				k := g.intn("concat-split", 1, len(sl.V)-1)
+				operand = ts.Bin{Op: "+", Ty: ts.TString, L: ts.StrLit{V: sl.V[:k]}, R: ts.StrLit{V: sl.V[k:]}}
+			}
+		} else {
+			out = append(out, ts.VarDecl{Names: []string{name}, Ty: seqTy, Tys: []ts.Type{seqTy}, Vals: []ts.Expr{init}, Form: ts.DeclShort})
+			g.addCounter(name, seqTy, minLenOf(init, g))
+		}
 		g.push()
 		iv := g.freshName()
 		g.add(&varInfo{Name: iv, Ty: ts.TInt, Locked: true})
-		r := ts.Range{I: iv, X: ts.VarRef{Name: name, Ty: seqTy}}
+		r := ts.Range{I: iv, X: operand}
 		if g.chance("range-value", 70) {
 			vv := g.freshName()
 			g.add(&varInfo{Name: vv, Ty: seqTy.Elem(), Locked: true})
@@ -1440,6 +1461,23 @@ func (g *G) copyStmt() []ts.Stmt {
 		g.defineVar(dst, src.Ty, src.MinLen)
 	}
 	cp := ts.Copy{Dst: dstRef, Src: ts.VarRef{Name: src.Name, Ty: src.Ty}}
+	if dstRef.Name != src.Name && g.chance("copy-from-expression", 30) {
+		// the source is a value that is no variable: a literal at least as long as dst, or (dst empty) a call result
+		g.tag("copy-from-expression")
+		calls := g.callsReturning(src.Ty)
+		if n == 0 && len(calls) > 0 && g.chance("copy-from-call", 50) {
+			cp.Src = g.callExpr(calls[g.intn("fn", 0, len(calls)-1)], 1)
+			g.visible(dst).MinLen = 0
+		} else {
+			lit := ts.SliceLit{Elem: src.Ty.Elem()}
+			k := g.intn("src-len", n, n+3)
+			for i := 0; i < k; i++ {
+				lit.Elems = append(lit.Elems, g.expr(src.Ty.Elem(), 1))
+			}
+			cp.Src = lit
+			g.visible(dst).MinLen = k
+		}
+	}
 	g.tag("copy")
 	if g.chance("copy-bare", 25) {
 		out = append(out, ts.ExprStmt{E: cp})
